@@ -64,7 +64,7 @@ class G:
         r2[0] = self.rid()
         if mod == "cb":
             r2[2] = 2 if r[2] == 2 else r[2]
-            r2[8] = BIG if r[2] == 2 else 1 - r[8]
+            r2[8] = BIG if r[2] == 2 else (0 if r[8] else 1)
         else:
             r2[2], r2[3], r2[4] = 0, 0, BIG + 7
         return r2
